@@ -1,10 +1,234 @@
-"""C14, pub/sub family (filled in below)."""
+"""C14, simple-client family: the same sequential script against SimpleClient
+and AsyncSimpleClient."""
 from hypothesis import strategies as st
+
+from .. import core
+from .. import strategies as S
+from .. import wire
+from ..detloop import DetLoop
+from ..eio_client import ClientHarness
 
 
 def strategy(tier):
-    return st.nothing()
+    big = tier == 'thorough'
+    arg = S.tree_st(with_bytes=True, max_leaves=3)
+    op = st.one_of(
+        st.fixed_dictionaries({'op': st.just('ev'),
+                               'name': st.sampled_from(['a', 'message',
+                                                        'x y']),
+                               'args': st.lists(arg, max_size=2)}),
+        st.fixed_dictionaries({'op': st.just('ev'),
+                               'name': st.sampled_from(['a', 'b']),
+                               'args': st.lists(arg, max_size=2)}),
+        st.fixed_dictionaries({'op': st.just('recv')}),
+        st.fixed_dictionaries({'op': st.just('recv')}),
+        st.fixed_dictionaries({'op': st.just('emit'),
+                               'data': S.payload_st(max_leaves=3)}),
+        # call() is always acknowledged here: SimpleClient.call() retries on
+        # every SocketIOError including TimeoutError, i.e. an unanswered
+        # call never returns (see DESIGN.md, observations)
+        st.fixed_dictionaries({'op': st.just('call'),
+                               'ack': st.lists(arg, max_size=2)}),
+        st.fixed_dictionaries({'op': st.just('lose_reconnect'),
+                               'ok': st.booleans()}),
+        st.fixed_dictionaries({'op': st.just('sdisc')}),
+        st.fixed_dictionaries({'op': st.just('disconnect')}),
+        st.fixed_dictionaries({'op': st.just('connect')}),
+    )
+    sc = st.fixed_dictionaries({
+        'ns': st.sampled_from(['/', '/chat']),
+        'ops': st.lists(op, min_size=4, max_size=30 if big else 14)})
+    return st.fixed_dictionaries({'family': st.just('simple'), 'sc': sc})
+
+
+class _NowEvent:
+    """threading.Event stand-in for a sequential script: never blocks."""
+
+    def __init__(self):
+        self.flag = False
+
+    def set(self):
+        self.flag = True
+
+    def clear(self):
+        self.flag = False
+
+    def is_set(self):
+        return self.flag
+
+    def wait(self, timeout=None):
+        self.n = getattr(self, 'n', 0) + 1
+        if (not self.flag and timeout is None) or self.n > 20000:
+            raise core.HarnessError('sequential script would block for ever')
+        return self.flag
 
 
 def run(case, aio):
-    raise NotImplementedError
+    socketio = core.bootstrap()
+    sc_case = case['sc']
+    ns = sc_case['ns']
+    loop = DetLoop() if aio else None
+    holder = {}
+    trace = []
+    labels = {'entry_points': set(), 'faults': 0}
+    try:
+        def factory(*a, **k):
+            h = ClientHarness(aio=aio, loop=loop, reconnection=True,
+                              reconnection_attempts=1, reconnection_delay=1,
+                              randomization_factor=0)
+            holder['h'] = h
+            if not aio:
+                h.on_wait = on_wait
+            return h.sio
+        nconn = [0]
+
+        def answer():
+            h = holder.get('h')
+            if h is not None and h.eio.state == 'connected' and \
+                    ns not in h.sio.namespaces:
+                nconn[0] += 1
+                for f in wire.frames(wire.CONNECT, ns, None,
+                                     {'sid': 'sid%d' % nconn[0]}):
+                    h.deliver(f)
+        call_ack = {'v': None}
+        reader = wire.Reader()
+
+        def ack_call():
+            h = holder['h']
+            try:
+                pk = reader.read(h.take_msgs())
+            except Exception:
+                return
+            for p in pk:
+                trace.append(('sent', p['type'], p['nsp'], p['id'],
+                              p['data']))
+                if call_ack['v'] is not None and p['id'] is not None and \
+                        p['type'] in (2, 5):
+                    for f in wire.frames(wire.ACK, ns, p['id'],
+                                         list(call_ack['v'])):
+                        h.deliver(f)
+
+        def on_wait(ev, timeout):
+            h = holder['h']
+            if ev is getattr(h.sio, '_reconnect_abort', None):
+                return
+            if ev is getattr(h.sio, '_connect_event', None):
+                answer()
+            else:
+                ack_call()
+        sc = (socketio.AsyncSimpleClient if aio else socketio.SimpleClient)()
+        sc.client_class = factory
+        if not aio:
+            sc.connected_event = _NowEvent()
+            sc.input_event = _NowEvent()
+
+        def do(step, name, fn, during=None):
+            labels['entry_points'].add(name)
+            try:
+                if aio:
+                    task = loop.spawn(fn())
+                    for _ in range(20):
+                        loop.run_until_idle()
+                        if task.done():
+                            break
+                        if during is not None:
+                            during()
+                            loop.run_until_idle()
+                            if task.done():
+                                break
+                        if not loop.advance():
+                            break
+                    if not task.done():
+                        task.cancel()
+                        loop.run_until_idle()
+                        trace.append(('raised', step, name, 'stuck'))
+                        return
+                    if task.exception() is not None:
+                        raise task.exception()
+                    r = task.result()
+                else:
+                    r = fn()
+                trace.append(('result', step, name, r))
+            except core.HarnessError:
+                raise
+            except Exception as e:
+                if core.as_violation(e) is None and not isinstance(
+                        e, (socketio.exceptions.SocketIOError,
+                            RuntimeError)):
+                    raise
+                trace.append(('raised', step, name, type(e).__name__))
+        n_ev = [0]
+        do('init', 'connect', lambda: sc.connect('http://h', namespace=ns),
+           during=answer)
+        for step, op in enumerate(sc_case['ops']):
+            k = op['op']
+            h = holder.get('h')
+            if k == 'connect':
+                do(step, 'connect', lambda: sc.connect('http://h',
+                                                       namespace=ns),
+                   during=answer)
+                if not aio and sc.client is not None:
+                    pass
+            elif k == 'ev':
+                if h is not None and h.eio.state == 'connected':
+                    labels['entry_points'].add('EVENT')
+                    n_ev[0] += 1
+                    for f in wire.frames(wire.EVENT, ns, None,
+                                         [op['name'], n_ev[0]] +
+                                         list(op['args'])):
+                        h.deliver(f)
+            elif k == 'recv':
+                do(step, 'receive', lambda: sc.receive(timeout=1))
+            elif k == 'emit':
+                do(step, 'emit', lambda: sc.emit('ev', op['data']))
+            elif k == 'call':
+                call_ack['v'] = op['ack']
+                do(step, 'call', lambda: sc.call('q', 1, timeout=1),
+                   during=ack_call)
+                call_ack['v'] = None
+            elif k == 'lose_reconnect':
+                if h is not None and h.eio.state == 'connected':
+                    labels['entry_points'].add('loss')
+                    labels['faults'] += 1
+                    h.plan[:] = ['ok' if op['ok'] else 'fail']
+                    h.lose()
+                    if aio:
+                        for _ in range(6):
+                            loop.run_until_idle()
+                            answer()
+                            loop.run_until_idle()
+                            if not [1 for n, t in h.tasks
+                                    if n == '_handle_reconnect' and
+                                    not t.done()]:
+                                break
+                            loop.advance()
+                    else:
+                        for b in h.reconnect_tasks():
+                            b.run()
+                        h.bg[:] = [b for b in h.bg if not b.done]
+            elif k == 'sdisc':
+                if h is not None and h.eio.state == 'connected':
+                    labels['entry_points'].add('DISCONNECT')
+                    labels['faults'] += 1
+                    for f in wire.frames(wire.DISCONNECT, ns):
+                        h.deliver(f)
+            elif k == 'disconnect':
+                do(step, 'disconnect', lambda: sc.disconnect())
+            h = holder.get('h')
+            if h is not None:
+                try:
+                    for p in reader.read(h.take_msgs()):
+                        trace.append(('sent', p['type'], p['nsp'], p['id'],
+                                      p['data']))
+                except Exception as e:
+                    trace.append(('sent-undecodable', type(e).__name__))
+                while h.bg_errors:
+                    trace.append(('bg-error', type(
+                        h.bg_errors.pop(0)).__name__))
+            trace.append(('state', step, bool(sc.connected), sc.sid,
+                          list(sc.input_buffer)))
+        labels['entry_points'] = len(labels['entry_points'])
+        return trace, labels
+    finally:
+        if loop is not None:
+            loop.shutdown()
